@@ -62,6 +62,15 @@ def plan(tier):
         data='argument value, the other thread\'s value (16 bit) and exception tag (8 bit): symbolic',
         bounds='two threads, one preemption: the other operation runs as a whole inside a window of start(promise)',
         outside='interleavings that split both operations (the claim itself is one exchange; future/promise two-sided interleavings are the E2 scenarios of C01/C02); thread-pool start (C11)'))
+    KA = 8
+    va = [[t, k] for t in range(2) for k in range(KA)]
+    units.append(dict(
+        engine='e1', name='await_mt', tu='C04conc.cpp', entry='h_await_mt', unwind=6, vectors=va,
+        concrete=[([0, 0], [5, 6]), ([1, 3], [5, 6]), ([0, 5], [7, 8]), ([1, 7], [1, 2])],
+        space='a parent coroutine co_awaits a child that suspends on a future; the complete resolve operation of the completing thread lands in front of the k-th atomic instruction executed since the parent '
+              'was started (k = 1..%d: before the child awaits, inside the co_await protocol of async<T>, after everything is parked; beyond the last one: afterwards) x child returns / throws; full product' % KA,
+        data='argument and delivered value (16 bit): symbolic', bounds='two threads, one pre-emption',
+        outside='interleavings that split the resolve operation itself'))
     import itertools
     vr = []
     for k in (1, 2, 3):
